@@ -2,6 +2,7 @@
 import concurrent.futures as cf
 import copy
 import os
+import shutil
 
 from vlib import build, cbor, cdns_schema, model, pipeline, runner
 from vlib.findings import Violation
@@ -34,6 +35,19 @@ def retained_block(case, i_exc):
         if rec:
             m.block.qr.append(rec)
     return m.block.as_expected()
+
+
+def _bounded_map(ex, fn, items, window):
+    """ordered map with at most `window` results in flight or waiting to be consumed"""
+    import collections
+    q = collections.deque()
+    it = iter(items)
+    for x in it:
+        q.append(ex.submit(fn, x))
+        if len(q) >= window:
+            yield q.popleft().result()
+    while q:
+        yield q.popleft().result()
 
 
 def run(tier, seed):
@@ -96,10 +110,11 @@ def run(tier, seed):
             d = sysutil.prepare_dir(base, 'f%d_%d_%s_%d_%d' % (si, pl['k'], pl['err'], pl.get('short', 0), pl['persist']), case, {})
             rc, res, sl, err = sysutil.sysrun(exe, case, d, pl)
             files = sysutil.final_files(d, case)
-            return si, pl, rc, res, sl, err, files
-        with cf.ThreadPoolExecutor(max_workers=runner.NCPU) as ex:
-            results = list(ex.map(fault_job, jobs))
-        for si, pl, rc, res, sl, err, files in results:
+            shutil.rmtree(d, ignore_errors=True)
+            return si, pl, rc, res, [e for e in sl if e.get("injected")], err, files
+        # results are judged as they arrive and dropped (thorough tiers run tens of thousands of fault runs, each with file contents)
+        ex = cf.ThreadPoolExecutor(max_workers=runner.NCPU)
+        for si, pl, rc, res, sl, err, files in _bounded_map(ex, fault_job, jobs, 4 * runner.NCPU):
             name, case = scen[si]
             kind, comp = case['open']['kind'], case['open']['comp']
             how = 'persist' if pl['persist'] else 'once'
@@ -200,6 +215,10 @@ def run(tier, seed):
                 recovered += 1
                 outcome['reported+recovered'] = outcome.get('reported+recovered', 0) + 1
     finally:
+        try:
+            ex.shutdown(wait=True)
+        except NameError:
+            pass
         runner.cleanup(base)
     obs = dict(scenarios=len(scen), fault_runs=len(jobs), fault_runs_per_scenario=per_scen, runs_with_fault_injected=injected_runs, runs_where_an_api_call_threw=exc_seen, runs_recovered_into_valid_file=recovered, outcomes=outcome)
     cov = dict(evaluations=len(jobs), distinct_nontrivial=injected_runs,
